@@ -69,6 +69,8 @@ def run_program(prog, chooser, line_budget):
                 getres.append((tid, "value", r.get(prog.get("getter_timeout"))))
         except OSError:
             getres.append((tid, "timeout", finished.get(tid, False)))
+        except S.Abort:
+            raise                      # the scheduler ends a run in which this thread is blocked for good (reported as such)
         except BaseException as e:  # noqa
             getres.append((tid, "exc", type(e).__name__, list(e.args)))
 
